@@ -184,3 +184,23 @@ class WorkRoles:
 
     def restore_download(self):
         return "cache::DownloaderCache::restore_file"
+
+
+def remembered_entry_call(P, o):
+    """If origin `o` is rooted in `remembered.get_info(i)` or, with the accessor written out,
+    in `remembered.infos[i]`: (Fn, CallSite, vector operand, index operand); else None."""
+    if not o or o[0][0] != "call":
+        return None
+    fn = P.fns.get(o[0][1])
+    if fn is None:
+        return None
+    c = fn.call_at.get(o[0][2])
+    if c is None:
+        return None
+    if c.path == "blob::FileStateVec::get_info" and len(c.args) == 2:
+        return fn, c, c.args[0], c.args[1]
+    if "Index" in c.path and c.name in ("index", "index_mut") and len(c.args) == 2:
+        vo = fn.origins_of_operand(c.args[0])
+        if vo and all(x[-1] == ("field", "infos") for x in vo) and fn.local_ty(c.args[1]["place"]["local"])["s"] == "usize" if c.args[1]["k"] in ("copy", "move") else False:
+            return fn, c, c.args[0], c.args[1]
+    return None
